@@ -176,6 +176,59 @@ def run(chk):
             if not np.array_equal(P @ Lm.conj() @ P, Lm):
                 chk.fail("liouvillian-herm", f"{api}.liouvillian does not preserve Hermiticity", info)
 
+    # ---- (c) the hypotheses of pathsum_trace, observed on the library's own ingredients -------------
+    # influence functions are EXACTLY 1 where the later index is a population (exp(0)); basis changes and
+    # half-step propagators preserve the trace functional column-wise (1e-12: expm sits in between)
+    from oqupy.tempo import influence_matrix
+    for it in range(40 if thorough else 14):
+        d = rng.choice([2, 2, 3, 4])
+        kind = rng.choice(["diagonal", "degenerate", "hermitian"])
+        if kind == "diagonal":
+            op = np.diag([float(rng.randint(-2, 2)) for _ in range(d)]).astype(complex)
+        else:
+            a = np.array([[rng.gauss(0, 1) + 1j * rng.gauss(0, 1) for _ in range(d)] for _ in range(d)])
+            q, _ = np.linalg.qr(a)
+            lam = [float(rng.randint(-1, 1)) for _ in range(d)] if kind == "degenerate" else [rng.uniform(-1, 1) for _ in range(d)]
+            op = q @ np.diag(lam) @ q.conj().T
+            op = (op + op.conj().T) / 2
+        corr = oqupy.PowerLawSD(alpha=rng.choice([0.1, 0.8, 1.5]), zeta=rng.choice([1, 3]), cutoff=rng.choice([1.0, 4.0]),
+                                cutoff_type=rng.choice(["exponential", "gaussian"]), temperature=rng.choice([0.0, 0.3, 2.0]))
+        info = {"kind": "pathsum-hypotheses", "coupling": kind, "d": d}
+        try:
+            bath = oqupy.Bath(op, corr)
+            dkmax = rng.randint(1, 4)
+            par = oqupy.TempoParameters(dt=rng.choice([0.05, 0.1, 0.3]), epsrel=1e-6, dkmax=dkmax,
+                                        add_correlation_time=rng.choice([None, 0.2, 1.0]))
+            pops = [i * d + i for i in range(d)]
+            worst = None
+            for dk in list(range(0, dkmax + 1)) + [-1, -3]:
+                infl = influence_matrix(dk, par, bath.correlations, bath.coupling_acomm, bath.coupling_comm)
+                if infl is None:
+                    continue
+                cols = np.diag(infl)[pops] if dk == 0 else infl[:, pops]
+                if not np.all(cols == 1.0):
+                    worst = (dk, float(np.abs(cols - 1.0).max()))
+            u = bath.unitary_transform
+            tr = np.eye(d).reshape(-1)
+            sup = [opr.left_right_super(u, u.conj().T), opr.left_right_super(u.conj().T, u)]
+            H = herm_int(rng, d)
+            nt = rng.randint(0, 2)
+            sysm = oqupy.System(H, gammas=[rng.uniform(0, 1) for _ in range(nt)],
+                                lindblad_operators=[gint(rng, (d, d), -1, 1) for _ in range(nt)])
+            sup += list(sysm.get_propagators(par.dt, 0.0, None, 1e-6)(0))
+            dev = max(np.abs(tr @ m - tr).max() / max(1.0, np.abs(m).max()) for m in sup)
+        except Exception as ex:
+            chk.fail("method-raises", f"building the TEMPO ingredients raises {ex!r}", info)
+            continue
+        chk.search_cases += 1
+        chk.count("pathsum_hypotheses_" + kind)
+        chk.case(info, ("hyp", kind, d, it))
+        if worst is not None:
+            chk.fail("influence-not-one-on-populations", f"influence_matrix(dk={worst[0]}) differs from 1 by {worst[1]:.2e} where the later index "
+                     f"is a population: tracing out the latest point does not remove the coupling ({kind} coupling)", info)
+        if dev > 1e-12:
+            chk.fail("propagator-not-trace-preserving", f"a basis change / half-step propagator changes the trace functional by {dev:.2e}", info)
+
     vals, errs = run_cases("C04", HEADER, exprs, chunk=60)
     for e in errs:
         chk.disagree("coq evaluation", e)
@@ -189,7 +242,8 @@ def run(chk):
         trusted=["models: Model/SuperOps.v (kron form and index-pair form), Model/Shapes.v (influence exponent)",
                  "the theorems are about twice the Lindbladian (no 1/2 in an arbitrary ring)"],
         rule="operators.py superoperators on Gaussian-integer matrices d=1..3 against both model forms; Lindbladians of System and "
-             "TimeDependentSystem with 0-3 integer-rate dissipators (exact, incl. non-Hermitian H); search: Tempo, PtTempo, MeanFieldTempo, GibbsTempo, PtTebd "
+             "TimeDependentSystem with 0-3 integer-rate dissipators (exact, incl. non-Hermitian H); hypotheses of pathsum_trace on influence_matrix (exactly 1 on population columns, every dk), "
+             "Bath.unitary_transform and System propagators; search: Tempo, PtTempo, MeanFieldTempo, GibbsTempo, PtTebd "
              "with alpha up to 1.5, T in {0,.3,2}, pure/mixed/rank-deficient initial states; trace/Hermiticity within 50*epsrel at every step, positivity at full memory",
         assumptions=["positivity and the effect of SVD truncation on the trace are explored on the implementation only (no theorem)",
-                     "trace/Hermiticity of the full path sum follows from (1)-(3) by the causality argument; that composition is not mechanised"])
+                     "trace preservation of the full path sum is theorem pathsum_trace (its hypotheses are observed on influence_matrix / Bath / System on every run); the Hermiticity counterpart of that composition is not mechanised"])
